@@ -236,9 +236,29 @@ func newRigEnv(ctx *core.Ctx, mitm, upstream, cred bool) (*hopEnv, error) {
 
 // newBinaryEnv starts `forwarder run` with the three rule lists as flags.
 func newBinaryEnv(ctx *core.Ctx, mitm, upstream, cred bool, reqRules, connRules, respRules []string) (*hopEnv, error) {
-	e := &hopEnv{via: "binary", mitm: mitm, upstream: upstream, cred: cred}
+	var args []string
+	for _, r := range reqRules {
+		args = append(args, "--header", csvEncode([]string{r}, false)) // (one CSV record of one field)
+	}
+	for _, r := range connRules {
+		args = append(args, "--connect-header", csvEncode([]string{r}, false)) // (one CSV record of one field)
+	}
+	for _, r := range respRules {
+		args = append(args, "--response-header", csvEncode([]string{r}, false)) // (one CSV record of one field)
+	}
+	e, refused, err := newBinaryEnvWith(ctx, mitm, upstream, cred, args, nil)
+	if err == nil && refused != "" {
+		err = &rig.ExitedError{Output: refused}
+	}
+	return e, err
+}
+
+// newBinaryEnvWith starts `forwarder run` with the rule lists given by listArgs (flags, --config-file) and
+// env (FORWARDER_* variables). refused != "": the binary did not accept the configuration (its output).
+func newBinaryEnvWith(ctx *core.Ctx, mitm, upstream, cred bool, listArgs, env []string) (e *hopEnv, refused string, err error) {
+	e = &hopEnv{via: "binary", mitm: mitm, upstream: upstream, cred: cred}
 	if err := e.startPeers(); err != nil {
-		return nil, err
+		return nil, "", err
 	}
 	args := []string{"--log-level", "error", "--proxy-localhost", "allow", "--name", "fwdverif", "--api-address", "",
 		"--connect-to", hopOrigin + ":80:" + e.origin.Addr + "," + hopOrigin + ":443:" + e.tlsOrigin.Addr}
@@ -252,26 +272,22 @@ func newBinaryEnv(ctx *core.Ctx, mitm, upstream, cred bool, reqRules, connRules,
 		u := siteUser + ":" + sitePass
 		args = append(args, "--credentials", u+"@"+hopOrigin+":80,"+u+"@"+hopOrigin+":443")
 	}
-	for _, r := range reqRules {
-		args = append(args, "--header", r)
-	}
-	for _, r := range connRules {
-		args = append(args, "--connect-header", r)
-	}
-	for _, r := range respRules {
-		args = append(args, "--response-header", r)
-	}
-	var err error
-	if e.proc, err = rig.StartBinary(ctx.Root, args, nil); err != nil {
+	args = append(args, listArgs...)
+	var no bool
+	var out string
+	if e.proc, no, out, err = rig.StartBinaryVerdict(ctx.Root, args, env); err != nil || no {
 		e.close()
-		return nil, err
+		if no && out == "" {
+			out = "(no output)"
+		}
+		return nil, out, err
 	}
 	e.addr = e.proc.Addr
 	if e.tag, err = e.learnTag(); err != nil {
 		e.close()
-		return nil, fmt.Errorf("%w (args %q, output %s)", err, args, e.proc.Output.String())
+		return nil, "", fmt.Errorf("%w (args %q, output %s)", err, args, e.proc.Output.String())
 	}
-	return e, nil
+	return e, "", nil
 }
 
 // open returns a client connection ready for requests; secure: after CONNECT + TLS handshake with the
